@@ -694,3 +694,24 @@ func init() {
 		return w.TF.Bool(walk(err, 0))
 	}, "errors.As")
 }
+
+func init() {
+	// ulid.Parse is written `return id, parse(v, false, &id)`: the gc compiler reads
+	// the named result after the call, go/ssa before it (evaluation order of a
+	// variable operand relative to a call is unspecified). Follow the compiler.
+	parse := func(strict bool) intrinsic {
+		return func(w *Worker, caller *frame, fn *ssa.Function, a []Value) Value {
+			p := fn.Pkg.Func("parse")
+			if p == nil {
+				panic(pathAbort{"unsupported", "ulid.parse not found"})
+			}
+			idT := fn.Signature.Results().At(0).Type()
+			o := w.newObj(idT)
+			s := a[0].(*StrV)
+			err := w.call(caller, p, []Value{w.strToBytes(s, types.Typ[types.Uint8]), w.TF.Bool(strict), PtrV{O: o}}, nil)
+			return TupleV{w.load(o), err}
+		}
+	}
+	reg(parse(false), "github.com/oklog/ulid/v2.Parse")
+	reg(parse(true), "github.com/oklog/ulid/v2.ParseStrict")
+}
